@@ -7,6 +7,9 @@
 (* An event is explained iff every object that existed before is unchanged (ExistingUnchanged),    *)
 (* exactly one object was added unless the call raised, and the new object / the raise is an       *)
 (* allowed outcome of the operator in Resources.tla (ResultOK / Raises).                           *)
+(* An OBSERVATION event (op = "slurm": to_slurm_options of object a[1]) carries `opts`, the tokens   *)
+(* of the returned string ([flag, val] records, Resources!Tok); it creates nothing, changes nothing *)
+(* and its tokens must satisfy Resources!SlurmOK for the current value of that object.             *)
 (* Objects use the JSON shape of MC_Resources!Enc: extra_args as [key, value] pairs.               *)
 EXTENDS Resources, Json, IOUtils, TLCExt
 Traces == ndJsonDeserialize(IOEnv.TRACE_FILE)
@@ -32,7 +35,9 @@ Step == /\ l <= Len(T.ev)
         /\ LET o    == [op |-> Ev.op, a |-> Ev.a, kw |-> DecKw(Ev.kw)]
                snap == DecAll(Ev.snap)
            IN  /\ ExistingUnchanged(objs, snap)
-               /\ IF Ev.raised = 1
+               /\ IF Ev.op = "slurm"
+                  THEN Ev.raised = 0 /\ Len(snap) = Len(objs) /\ ObservationOK(objs, o, Ev.opts)
+                  ELSE IF Ev.raised = 1
                   THEN Len(snap) = Len(objs) /\ Raises(objs, o)
                   ELSE Len(snap) = Len(objs) + 1 /\ ResultOK(objs, o, snap[Len(snap)])
                /\ objs' = snap
